@@ -27,18 +27,19 @@ impl<'a> Tokens<'a> {
                 Mode::Space => {
                     if byte == b'"' {
                         mode = Mode::Quoted;
-                        empty = false;
-                        if insert > 0 {
+                        // separator is needed after any previous token, even an empty one
+                        if !empty {
                             bytes[insert] = 0;
                             insert += 1;
                         }
+                        empty = false;
                     } else if byte != b' ' && byte != 0 {
                         mode = Mode::Normal;
-                        empty = false;
-                        if insert > 0 {
+                        if !empty {
                             bytes[insert] = 0;
                             insert += 1;
                         }
+                        empty = false;
                         bytes[insert] = byte;
                         insert += 1;
                     }
